@@ -1,0 +1,39 @@
+//go:build verif
+
+// Contracts for the deductive verifier in /verif (comment-only file; compiled only with -tags verif).
+package command
+
+// ---------------------------------------------------------------------------------------------
+// C16 / C08 / C12: startScanEngine
+//
+// watchdog: the scan is cancelled only after the engine signalled completion AND a timer of exactly the
+// configured exit delay, armed after that signal, has fired.
+//@ func startScanEngine$2
+//@   props C16 C08 C12
+//@   observe time.After, cancel
+//@   entry row delay: [recv done as (_, _) ; call time.After(conf.exitDelay) as (t) ; recv t as (_, _) ; call cancel()] -> exit
+
+// result logging goroutine: LogResults on the derived context and the engine's result channel, then Done
+//@ func startScanEngine$1
+//@   props C16 C08 C12
+//@   observe LogResults, Results, (*sync.WaitGroup).Done
+//@   entry row log: [call Results(engine) as (rc) ; call LogResults(logger, ctx, rc) ; call Done(_)] -> exit
+
+// error drain: every error of the stream is logged once; returns only when the stream is closed
+//@ func startScanEngine$3
+//@   props C08 C12
+//@   observe Error, (*sync.WaitGroup).Done
+//@   loop 0 row closed: [recv errc as (e, false) ; call Done(_)] -> exit
+//@   loop 0 row report: [recv errc as (e, true) ; call Error(logger, e)] -> continue
+
+// the scan call itself: derived context; logger started before the engine; watchdog bound to the engine's
+// done channel and the derived cancel; returns only after Wait (logger returned and error stream closed);
+// the deferred cancel runs after Wait.
+//@ func startScanEngine
+//@   props C16 C08 C12
+//@   observe context.WithCancel, Start, (*sync.WaitGroup).Add, (*sync.WaitGroup).Wait, cancel
+//@   entry row scan: [call context.WithCancel(ctx) as (c2, cf) ; call Add(_, 1) ; go startScanEngine$1(_, bind_lg, bind_c1, bind_en) ;
+//@                    call Start(engine, c2, bind_rng) as (done, errc) ; go startScanEngine$2(bind_cf2, bind_dn, bind_cfg) ;
+//@                    call Add(_, 1) ; go startScanEngine$3(_, bind_ec, bind_lg2) ; call Wait(_) ; call cancel()]
+//@                   when c1 == c2 && en == engine && lg == conf.logger && dn == done && cf2 == cf && cfg == conf && ec == errc && lg2 == conf.logger && ret == nil -> exit
+
